@@ -337,6 +337,10 @@ func execCall(w *World, c Call) (res string, uuid string) {
 		close(ch)
 		n, err := db.InsertOrUpdateBulk(ch, 1)
 		return fmt.Sprintf("%s:%d", cls(err), n), ""
+	case "settings":
+		w.Cfg.Cache = c.V%2 == 1
+		w.Cfg.Async = []int{0, 1, 2}[c.V/2]
+		return cls(db.Create(&Rec{}, w.Cfg.Schema(&Rec{}))), ""
 	case "drop":
 		return cls(db.Drop()), ""
 	case "flushandcommit":
